@@ -158,23 +158,56 @@ impl Future for ProviderFuture {
     }
 }
 
+/// The principal the scripted provider supplies for number n: always the IAM user "user<n>", plus - depending on n -
+/// identities of the other kinds, so that a conversion that keeps only one identity, or only users, shows.
 pub fn principal_of(n: i64) -> Principal {
-    User::new("aws", "123456789012", "/", &format!("user{}", n)).unwrap().into()
+    use scratchstack_aws_signature::principal::{AssumedRole, CanonicalUser, PrincipalIdentity, RootUser, Service};
+    let mut ids: Vec<PrincipalIdentity> = vec![User::new("aws", "123456789012", "/", &format!("user{}", n)).unwrap().into()];
+    match n.rem_euclid(4) {
+        1 => ids.push(AssumedRole::new("aws", "123456789012", "role", &format!("sess{}", n)).unwrap().into()),
+        2 => {
+            ids.push(RootUser::new("aws", "123456789012").unwrap().into());
+            ids.push(CanonicalUser::new(&"9".repeat(64)).unwrap().into());
+        }
+        3 => ids.push(Service::new("s3", None, "amazonaws.com").unwrap().into()),
+        _ => {}
+    }
+    Principal::new(ids)
 }
 
 pub fn principal_number(p: &Principal) -> i64 {
-    if p.len() != 1 {
-        return -1;
+    let n = p
+        .as_slice()
+        .iter()
+        .filter_map(|i| i.as_user())
+        .filter_map(|u| u.user_name().strip_prefix("user").and_then(|s| s.parse::<i64>().ok()))
+        .next();
+    match n {
+        Some(n) if *p == principal_of(n) => n,
+        _ => -1,
     }
-    p.as_slice()[0]
-        .as_user()
-        .and_then(|u| u.user_name().strip_prefix("user").and_then(|s| s.parse::<i64>().ok()))
-        .unwrap_or(-1)
+}
+
+/// What the scripted provider supplies for principal number n: one entry of every SessionValue type (incl. Null and
+/// empty values), so that a conversion that filters, defaults or re-encodes any of them shows.
+pub fn session_of(n: i64) -> SessionData {
+    let mut sd = SessionData::new();
+    sd.insert("n", SessionValue::Integer(n));
+    sd.insert("null", SessionValue::Null);
+    sd.insert("bin", SessionValue::Binary(vec![0, 255, 10]));
+    sd.insert("empty-bin", SessionValue::Binary(Vec::new()));
+    sd.insert("flag", SessionValue::Bool(n % 2 == 0));
+    sd.insert("zero", SessionValue::Integer(0));
+    sd.insert("s", SessionValue::String(format!("value {}", n)));
+    sd.insert("empty-s", SessionValue::String(String::new()));
+    sd.insert("ip", SessionValue::IpAddr(std::net::IpAddr::V4(std::net::Ipv4Addr::new(192, 0, 2, (n % 250) as u8))));
+    sd.insert("ts", SessionValue::Timestamp(chrono::DateTime::<Utc>::from_timestamp(1_440_938_160 + n, 0).unwrap()));
+    sd
 }
 
 pub fn session_number(s: &SessionData) -> i64 {
     match s.get("n") {
-        Some(SessionValue::Integer(i)) if s.len() == 1 => *i,
+        Some(SessionValue::Integer(i)) if *s == session_of(*i) => *i,
         _ => -1,
     }
 }
@@ -218,8 +251,7 @@ impl tower::Service<GetSigningKeyRequest> for Provider {
             let secret = String::from_utf8_lossy(&self.script.secret).to_string();
             match KSecretKey::from_str(&secret) {
                 Ok(k) => {
-                    let mut sd = SessionData::new();
-                    sd.insert("n", SessionValue::Integer(self.script.principal));
+                    let sd = session_of(self.script.principal);
                     GetSigningKeyResponse::builder()
                         .principal(principal_of(self.script.principal))
                         .session_data(sd)
